@@ -7,12 +7,19 @@ ROOT = os.path.dirname(os.path.dirname(os.path.abspath(__file__)))
 out = []
 out.append("### 0.3 Repaired defects and known findings (from known_findings.jsonl)\n")
 out.append("| id | kind | property (also) | commit | what |\n|---|---|---|---|---|")
+collapsed = 0
 for line in open(os.path.join(ROOT, "known_findings.jsonl")):
     line = line.strip()
     if not line: continue
     k = json.loads(line)
+    m = re.match(r"K-B(\d+)$", k["id"])
+    if m and int(m.group(1)) > 5 and int(m.group(1)) != 75:
+        collapsed += 1      # instances of the thorough sweep: one summary row below
+        continue
     what = k["what"].replace("|", "\\|")
     out.append("| %s | %s | %s %s | %s | %s |" % (k["id"], k["kind"], k["property"], ("(" + ", ".join(k.get("also", [])) + ")") if k.get("also") else "", k.get("commit", "-"), what))
+if collapsed:
+    out.append("| K-B6 … K-B92 | known | C10  | - | %d further instances of the same kind (the planner misses a shorter plan), each identified by its exact (modes, list, input) and found by the thorough sweep; every witness stream was confirmed to decode to the input with the crate's own decoder (tools/mk_c10_known.py); listed one per line in known_findings.jsonl |" % collapsed)
 out.append("\n### 0.4 Seeded mutations (from seeded/*/meta.json) and the checks that report them\n")
 out.append("Each mutation was produced by a fresh sub-agent that saw only the property text and a scratch worktree; it compiles, passes the 167 tests, and its demonstration fails with it and passes without it (confirmed by tools/seed.py in a scratch worktree). `detected by` lists the quick checks that exit 1 with the mutation applied to /repo.\n")
 out.append("| seeded | what was changed | needs | detected by (quick tier) |\n|---|---|---|---|")
